@@ -558,6 +558,19 @@ fn scale_case<G: CurveTag>(it: &ScaleItem, col: &mut Collector) -> Result<(), Fa
             base[it.at].1 = Sc::C(ScalarSpec::Small(2 + (it.at % 11) as u64));
             ops.push(Op::Constrain { lc, err: None, base: Some(base) });
         }
+        6 => {
+            // a statement over multiplier wires only: no commitment, no constant anywhere. `total`
+            // twin gates tied together by L_i − L_{i+1}, R_i − R_{i+1}, O_i − O_{i+1}; one output is off
+            for _ in 0..it.total.max(2) {
+                ops.push(Op::AllocMul { l: Sc::C(ScalarSpec::Small(6)), r: Sc::C(ScalarSpec::Small(7)) });
+            }
+            for i in 0..it.total.max(2) - 1 {
+                for (a, b) in [(Var::L(i), Var::L(i + 1)), (Var::R(i), Var::R(i + 1)), (Var::O(i), Var::O(i + 1))] {
+                    ops.push(Op::Constrain { lc: vec![(a, Sc::C(ScalarSpec::One)), (b, Sc::C(ScalarSpec::MinusOne))], err: None, base: Some(vec![]) });
+                }
+            }
+            ops.push(Op::Tamper { gate: it.at.min(it.total.max(2) - 1), dl: ScalarSpec::Zero, dr: ScalarSpec::Zero, dout: ScalarSpec::Small(5) });
+        }
         5 => {
             // V0 − L0 = 0 (violated: 9 ≠ 2) buried at `at` among `total` constant terms that cancel:
             // satisfied only for an implementation that confuses variables sharing an index
@@ -581,20 +594,21 @@ fn scale_case<G: CurveTag>(it: &ScaleItem, col: &mut Collector) -> Result<(), Fa
     }
     let prog = Program { curve: G::CURVE, tlabel: 0, pre: vec![], ops, owned: false, cap_p: Cap::Exact, cap_v: Cap::Exact, party_cap: 1, seed: it.at as u64, pc: 0, gens: 0 };
     let p = run_prover::<G>(&prog, &ProveOpts::default());
-    if p.model.violations().len() != 1 {
+    let nviol = p.model.violations().len();
+    if (it.kind != 6 && nviol != 1) || nviol == 0 {
         return Err(Failure::new("machinery:scale", "scale program does not violate exactly one item", json!(format!("{:?}", it))));
     }
     let Some(proof) = p.proof.as_ref() else { return Ok(()) };
     let v = run_verifier::<G>(&prog, &p.commitments, proof, &VerifyOpts::default());
     if v.accepted() {
-        let what = ["linear constraint", "first-phase gate", "constraint over commitment", "second-phase gate", "term of one long constraint", "pair of same-index variables inside one long constraint"][it.kind as usize % 6];
+        let what = ["linear constraint", "first-phase gate", "constraint over commitment", "second-phase gate", "term of one long constraint", "pair of same-index variables inside one long constraint", "gate of a statement over wires only"][it.kind as usize % 7];
         return Err(Failure::new(
-            format!("C02:accepted:far-out-{}", ["constraint", "gate", "commitment", "phase2-gate", "term", "confusable-pair"][it.kind as usize % 6]),
+            format!("C02:accepted:far-out-{}", ["constraint", "gate", "commitment", "phase2-gate", "term", "confusable-pair", "wire-only-statement"][it.kind as usize % 7]),
             format!("a violated {} #{} (of {}) is accepted", what, it.at, it.total),
             json!({"scale": format!("{:?}", it)}),
         ));
     }
-    col.class(["scale:constraints", "scale:gates", "scale:commitments", "scale:phase2-gates", "scale:terms", "scale:confusable-pair"][it.kind as usize % 6]);
+    col.class(["scale:constraints", "scale:gates", "scale:commitments", "scale:phase2-gates", "scale:terms", "scale:confusable-pair", "wire-only-statement"][it.kind as usize % 7]);
     col.nontrivial(fp_of(&(it.curve, it.kind, it.total, it.at, 77u8)));
     Ok(())
 }
@@ -699,6 +713,9 @@ pub fn run(tier: &str, seed: u64) -> i32 {
             }
             for (total, at) in if thorough { vec![(66_000usize, 0usize), (66_000, 33_000), (66_000, 65_998), (4100, 2000), (300, 7)] } else { vec![(66_000, 65_000), (300, 7)] } {
                 items.push(ScaleItem { curve: c, kind: 5, total, at });
+            }
+            for (total, at) in [(2usize, 1usize), (2, 0), (3, 1), (8, 7), (17, 5)] {
+                items.push(ScaleItem { curve: c, kind: 6, total, at });
             }
         }
         let mut o = crate::runner::enumerate("c02/scale", &items, &|i| i.encode(), &|i, col| with_curve!(i.curve, G => scale_case::<G>(i, col)));
